@@ -578,7 +578,9 @@ func run(c *vf.Case) {
 		readers := make([]interceptor.RTPReader, len(s.streams))
 		bind := func(si int) {
 			st := s.streams[si]
-			readers[si] = ic.BindRemoteStream(&interceptor.StreamInfo{SSRC: st.ssrc, ClockRate: st.rate},
+			// the negotiated payload type is set in most cases; packets of another payload type on
+			// the same SSRC (comfort noise, telephone-event, a codec switch) are reception history too
+			readers[si] = ic.BindRemoteStream(&interceptor.StreamInfo{SSRC: st.ssrc, ClockRate: st.rate, PayloadType: uint8(c.R.Pick(0, int(st.pt), int(st.pt), int(st.pt)))},
 				interceptor.RTPReaderFunc(func(b []byte, a interceptor.Attributes) (int, interceptor.Attributes, error) {
 					return copy(b, cur), a, nil
 				}))
@@ -633,7 +635,11 @@ func run(c *vf.Case) {
 					pkt[1] |= 0x80 // marker
 				}
 			} else {
-				var h rtp.Header = gen.Header(hr, st.shape, st.ssrc, st.pt, uint16(a.idx), a.ts)
+				pt := st.pt
+				if hr.Chance(0.04) {
+					pt = uint8(hr.Pick(13, 101, 110, int(st.pt+1)&0x7f))
+				}
+				var h rtp.Header = gen.Header(hr, st.shape, st.ssrc, pt, uint16(a.idx), a.ts)
 				hb, err := h.Marshal()
 				if err != nil {
 					harnessErr = "marshal: " + err.Error()
